@@ -4,6 +4,7 @@ open Fh Fh.Model
 
 /-! ### op "pipe": cap, then triples (opcode, end, arg)
 
+  S end x     like W, through WriteString (io.StringWriter): the same model event
   W end x     Write at end `end` ('1'|'2') of the payload `pipePayload (x % 256) (x / 256)` (x decimal)
   R end n     Read(p) with len(p) = n (decimal)
   C end -     Close (end ignored: Conn1().Close() = Conn2().Close() = pc.Close())
@@ -46,6 +47,10 @@ def runPipe (cap : Nat) : Pipe.Duplex → List Bytes → List String → Option 
     let ev? : Option Pipe.Ev :=
       match Char.ofNat op.toNat with
       | 'W' => do
+        let e ← endOf? e
+        let x ← natOfDec? x
+        pure (.write e (pipePayload (x % 256) (x / 256)))
+      | 'S' => do   -- WriteString / io.WriteString: the other exported entry point, the SAME write event
         let e ← endOf? e
         let x ← natOfDec? x
         pure (.write e (pipePayload (x % 256) (x / 256)))
